@@ -329,7 +329,10 @@ class pd2np(wrapper):
         super(pd2np, self).__init__(function = function, exc = as_list(exc), function_fullargspec = function_fullargspec)
     
     def wrapped(self, *args, **kwargs):
-        arg = getcallarg(self.function, args, kwargs)
+        try:
+            arg = getcallarg(self.function, args, kwargs)
+        except (KeyError, IndexError): # the first parameter is not passed (it has a default, or there is none): nothing to convert
+            arg = None
         excluded = {key:value for key, value in kwargs.items() if key in self.exc}
         kwargs_ = {key:value for key, value in kwargs.items() if key not in self.exc}
         if not is_pd(arg):
